@@ -234,7 +234,20 @@ def check_case(case, res: Result):
         # cancelled state are missing) - such instances keep their default mechanism key.
         never_cancelled = CR.cancel_refused_without_cancelling()
 
+        # UOD requests that arrived while the Restart was already in progress (dequeued after the tick that dequeued the
+        # Restart request, up to the Stopped tick) and for which CommandManager._cancel_command was never called
+        cancel_called = {c[1] for c in CR.CANCEL_CALLS} | {c[3] for c in CR.CANCEL_CALLS}
+        t_restart = min((q[0] for q in CR.REQS if q[1] == "Restart"), default=None)
+        during_restart = {q[2] for q in CR.REQS
+                          if kind == "Restart" and t_restart is not None and q[1] in UOD_NAMES
+                          and t_restart < q[0] <= s and q[2] not in cancel_called}
+
         def mech_for(iids, default):
+            if iids and all(i in during_restart for i in iids):
+                # Restart cancels running commands only in its first tick (Stop has a second pass in its last tick): a
+                # command requested while the state reads Restarting starts in the tick in which the restart completes,
+                # is never cancelled, and is orphaned when the new run gets a new CommandManager
+                return "C10.command_requested_while_restarting_survives_restart"
             if iids and all(i in cancel_aborted and i not in never_cancelled for i in iids):
                 # the Stop's cancel of this instance aborted inside Tracking.mark_cancelled (node.cancel() refused because
                 # the line's cancel flag was already set by the cancel of its previous instance): finalize is delayed to
